@@ -172,6 +172,41 @@ class Overlay:
                 'timeouts': [h for h, r in zip(harnesses, rs) if r['status'] != 'ran']}
 
 
+    def playback(self, harnesses, features=None, timeout=1800):
+        """witness replay: re-run failing harnesses with in-place concrete playback, then execute the
+        generated unit tests natively against the real code (`cargo kani playback`).  Returns
+        {harness: {'test': text, 'replayed': bool, 'output': tail}}"""
+        out = {}
+        for h in harnesses:
+            r = self._exec(self._cmd([h], features, ['-Z', 'concrete-playback', '--concrete-playback=inplace'], False), timeout)
+            names = re.findall(r'(?m)^\s*- (kani_concrete_playback_\w+)\.?\s*$', r['out'])
+            if not names:
+                out[h] = {'test': None, 'replayed': False, 'output': r['out'][-1500:]}
+                continue
+            # collect the generated test text
+            text = ''
+            for root, _, files in os.walk(os.path.join(self.dir, 'src')):
+                for fn in files:
+                    if fn.endswith('.rs'):
+                        t = open(os.path.join(root, fn), encoding='utf-8', errors='replace').read()
+                        for nm in names:
+                            k = t.find('fn ' + nm)
+                            if k >= 0:
+                                a = t.rfind('#[test]', 0, k)
+                                e = t.find('\n}', k)
+                                text += t[a:e + 2] + '\n'
+            cmd = ['cargo', 'kani', 'playback', '-Z', 'concrete-playback', '--lib']
+            if features:
+                cmd += ['--features', features]
+            cmd += ['--'] + names[:1]
+            r2 = self._exec(cmd, timeout)
+            failed = bool(re.search(r'test result: FAILED', r2['out'])) or bool(re.search(r'panicked at', r2['out']))
+            m = re.search(r"panicked at [^\n]*\n[^\n]*", r2['out'])
+            out[h] = {'test': text, 'replayed': failed, 'panic': m.group(0) if m else None,
+                      'output': re.sub(r'(?m)^warning.*?\n\n', '', r2['out'], flags=re.S)[-2500:], 'cmd': ' '.join(cmd)}
+        return out
+
+
 def parse_kani(out, harnesses):
     """per harness: status (success|failure|missing|error), checks, failed checks[], time"""
     res = {h: {'status': 'missing', 'checks': 0, 'failed': [], 'time_s': None, 'unwind_fail': False} for h in harnesses}
